@@ -15,8 +15,14 @@ Fixpoint frames_le (o : Z) (k : list (list byte * Z * Z)) : Prop :=
   | (_, o1, _) :: t => 0 <= o1 <= o /\ frames_le o1 t
   end.
 
+(* the input is shorter than 10^9 bytes: the ORIGIN validators print the line
+   index with "%9d" and size their buffer for exactly nine columns *)
+Definition input_bound : Z := 999999999.
+Definition small (s : st) : Prop :=
+  zlen (rest s) <= input_bound /\ Forall (fun fr => zlen (fst (fst fr)) <= input_bound) (stk s).
+
 Definition wf (s : st) : Prop :=
-  0 <= off s /\ (stk s = [] -> off s = 0) /\ frames_le (off s) (stk s).
+  0 <= off s /\ (stk s = [] -> off s = 0) /\ frames_le (off s) (stk s) /\ small s.
 
 Definition rdy (s : st) : Prop :=
   exists e, endr s = Some e /\ off s <= e /\ has_n (rest s) (Z.to_nat (e - off s)) = true.
@@ -83,13 +89,24 @@ Proof. intros s Hs. cbn. auto. Qed.
 
 (* ---------- the State primitives *)
 
+Definition bounded (k : list (list byte * Z * Z)) : Prop := Forall (fun fr => zlen (fst (fst fr)) <= input_bound) k.
+
+Lemma skipn_zlen_le {A} n (l : list A) : zlen (skipn n l) <= zlen l.
+Proof. unfold zlen. rewrite skipn_length. lia. Qed.
+
+Lemma span_n_le f l : zlen (snd (span_n f l)) <= zlen l.
+Proof.
+  induction l as [|c t IH]; cbn [span_n]; [cbn; lia|].
+  destruct (f c); [|cbn [snd]; lia]. destruct (span_n f t) as [k r]. cbn [snd] in *. unfold zlen in *. cbn [length]. lia.
+Qed.
+
 Lemma request_spec n : 0 <= n -> triple wf (request n) (fun _ => wr) wr.
 Proof.
-  intros Hn [r o e a k] (H1 & H2 & H3). unfold request. cbn [rest off apos stk].
+  intros Hn [r o e a k] (H1 & H2 & H3 & H4). unfold request. cbn [rest off apos stk].
   destruct (has_n r (Z.to_nat n)) eqn:E.
-  - split; [repeat split; assumption|]. exists (o + n). cbn. repeat split; try lia.
+  - split; [repeat split; try assumption; apply H4|]. exists (o + n). cbn. repeat split; try lia.
     replace (o + n - o) with n by lia. exact E.
-  - split; [repeat split; assumption|]. exists (o + zlen r). cbn. unfold zlen. repeat split; try lia.
+  - split; [repeat split; try assumption; apply H4|]. exists (o + zlen r). cbn. unfold zlen. repeat split; try lia.
     replace (o + Z.of_nat (length r) - o) with (Z.of_nat (length r)) by lia.
     rewrite Nat2Z.id. apply has_n_le. lia.
 Qed.
@@ -100,72 +117,82 @@ Proof.
   destruct (Z.ltb_spec (e0 - o) 0); [lia|]. split; [assumption|]. exists e0. cbn. auto.
 Qed.
 
-Lemma autoclear_wf r o e a k : 0 <= o -> frames_le o k -> wf (autoclear (mkst r o e a k)).
+Lemma autoclear_wf r o e a k : 0 <= o -> frames_le o k -> zlen r <= input_bound -> bounded k ->
+  wf (autoclear (mkst r o e a k)).
 Proof.
-  intros Ho Hk. unfold autoclear. cbn [stk]. destruct k as [|f t].
-  - repeat split; cbn; auto; lia.
-  - repeat split; cbn; auto. discriminate.
+  intros Ho Hk Hr Hb. unfold autoclear. cbn [stk]. destruct k as [|f t].
+  - unfold wf, small. cbn [off stk rest frames_le]. repeat split; auto; try lia.
+  - unfold wf, small. cbn [off stk rest]. repeat split; auto; try lia. intros; discriminate.
 Qed.
 
 Lemma advance_spec E : triple wr advance (fun _ => wf) E.
 Proof.
-  intros [r o e a k] ((H1 & H2 & H3) & e0 & He & Hle & Hn). unfold advance. cbn in *. subst e.
+  intros [r o e a k] ((H1 & H2 & H3 & H4 & H5) & e0 & He & Hle & Hn). unfold advance. cbn in *. subst e.
   destruct (Z.ltb_spec (e0 - o) 0); [lia|]. rewrite Hn. cbn [negb orb].
-  apply autoclear_wf; [lia|]. apply (frames_le_mono k o e0 H3 Hle).
+  apply autoclear_wf; [lia|apply (frames_le_mono k o e0 H3 Hle)| |exact H5].
+  pose proof (skipn_zlen_le (Z.to_nat (e0 - o)) r). lia.
 Qed.
 
-Ltac wf_tac := repeat split; cbn; auto; try lia; try (intros; discriminate).
+Ltac wf_tac := unfold wf, small, bounded in *; cbn [off stk rest endr apos frames_le fst snd] in *;
+  repeat split; auto; try lia; try (intros; discriminate); try tauto.
 
 Lemma push_spec : safe push.
 Proof.
-  intros [r o e a k] (H1 & H2 & H3). unfold push. cbn in *. wf_tac.
+  intros [r o e a k] (H1 & H2 & H3 & H4 & H5). unfold push. cbn [off stk rest endr apos] in *.
+  unfold wf, small. cbn [off stk rest frames_le]. repeat split; auto; try lia; try (intros; discriminate);
+    try (constructor; [cbn; assumption|assumption]).
 Qed.
 
 Lemma push_wr E : triple wr push (fun _ => wr) E.
 Proof.
-  intros [r o e a k] ((H1 & H2 & H3) & Hr). unfold push. cbn in *. split.
-  - wf_tac.
-  - exact Hr.
+  intros s [Hw Hr]. pose proof (push_spec s Hw) as H. unfold push in *. cbn in *. split; [exact H|exact Hr].
 Qed.
 
 Lemma pop_spec : safe pop.
 Proof.
-  intros [r o e a k] (H1 & H2 & H3). unfold pop. cbn [stk]. destruct k as [|[[r1 o1] a1] t].
-  - repeat split; auto.
-  - cbn in H3. apply autoclear_wf; [lia|tauto].
+  intros [r o e a k] (H1 & H2 & H3 & H4 & H5). unfold pop. cbn [stk]. destruct k as [|[[r1 o1] a1] t].
+  - unfold wf, small. cbn [off stk rest]. repeat split; auto.
+  - cbn in H3. cbn [off stk rest] in *. inversion H5 as [|? ? Hf Ht]; subst. cbn in Hf.
+    apply autoclear_wf; [lia|tauto|assumption|assumption].
 Qed.
 
 Lemma drop_spec : safe drop.
 Proof.
-  intros [r o e a k] (H1 & H2 & H3). unfold drop. cbn [stk]. destruct k as [|[[r1 o1] a1] t].
-  - repeat split; auto.
-  - cbn in H3. cbn [rest off endr apos]. apply autoclear_wf; [lia|].
+  intros [r o e a k] (H1 & H2 & H3 & H4 & H5). unfold drop. cbn [stk]. destruct k as [|[[r1 o1] a1] t].
+  - unfold wf, small. cbn [off stk rest]. repeat split; auto.
+  - cbn in H3. cbn [rest off endr apos stk] in *. inversion H5 as [|? ? Hf Ht]; subst.
+    apply autoclear_wf; [lia| |assumption|assumption].
     apply (frames_le_mono t o1 o); [tauto|lia].
 Qed.
 
 Lemma clear_spec : safe clear.
-Proof. intros [r o e a k] _. unfold clear, wf. cbn [off stk rest endr apos frames_le]. repeat split; auto; lia. Qed.
+Proof.
+  intros [r o e a k] (H1 & H2 & H3 & H4 & H5). unfold clear, wf, small. cbn [off stk rest endr apos frames_le] in *.
+  repeat split; auto; try lia; try constructor.
+Qed.
 
 Lemma next_spec : triple wf next (fun _ => wr) wf.
 Proof.
   intros [r o e a k] Hw. unfold next, bind, request, buffer, ret, mpanic. cbn [rest off endr apos stk].
   change (Z.to_nat 1) with 1%nat.
   destruct r as [|c t]; cbn [has_n].
-  - destruct Hw as (H1 & H2 & H3). wf_tac.
+  - destruct Hw as (H1 & H2 & H3 & H4 & H5). unfold wf, small. cbn [off stk rest] in *. repeat split; auto.
   - cbn [endr off rest]. destruct (Z.ltb_spec (o + 1 - o) 0); [lia|].
     replace (o + 1 - o) with 1 by lia. change (Z.to_nat 1) with 1%nat. cbn [firstn].
-    split; [destruct Hw as (H1 & H2 & H3); wf_tac|].
+    split; [destruct Hw as (H1 & H2 & H3 & H4 & H5); unfold wf, small; cbn [off stk rest] in *; repeat split; auto|].
     exists (o + 1). cbn. repeat split; try lia. replace (o + 1 - o) with 1 by lia. reflexivity.
 Qed.
 
 Lemma advance_while_spec f E : triple wf (advance_while f) (fun _ => wf) E.
 Proof.
-  intros [r o e a k] (H1 & H2 & H3). unfold advance_while. cbn [rest off endr apos stk].
-  destruct (span_n f r) as [n r']. destruct n as [|n]; [wf_tac|].
-  destruct k as [|fr t].
-  - wf_tac.
-  - cbn [off stk] in *. unfold wf. cbn [off stk]. split; [lia|]. split; [intros; discriminate|].
-    apply (frames_le_mono (fr :: t) o); [assumption|lia].
+  intros [r o e a k] (H1 & H2 & H3 & H4 & H5). unfold advance_while. cbn [rest off endr apos stk] in *.
+  pose proof (span_n_le f r) as Hs.
+  destruct (span_n f r) as [n r']. cbn [snd] in Hs. destruct n as [|n].
+  - unfold wf, small. cbn [off stk rest]. repeat split; auto.
+  - destruct k as [|fr t].
+    + unfold wf, small. cbn [off stk rest frames_le]. repeat split; auto; lia.
+    + unfold wf, small. cbn [off stk rest]. split; [lia|]. split; [intros; discriminate|].
+      split; [apply (frames_le_mono (fr :: t) o); [assumption|lia]|]. split; [lia|assumption].
 Qed.
 
 (* ---------- derived rules for the invariant alone *)
@@ -218,10 +245,11 @@ Proof. intros s Hs. cbn. auto. Qed.
 
 Lemma pop_le o0 : triple (fun s => wf s /\ off s = o0) pop (fun _ s => wf s /\ off s <= o0) wf.
 Proof.
-  intros [r o e a k] ((H1 & H2 & H3) & Ho). cbn in Ho. subst o0. unfold pop. cbn [stk].
+  intros s [Hw Ho]. pose proof (pop_spec s Hw) as Hp. destruct s as [r o e a k].
+  destruct Hw as (H1 & H2 & H3 & H4). cbn in Ho. subst o0. unfold pop in *. cbn [stk] in *.
   destruct k as [|[[r1 o1] a1] t].
-  - split; [wf_tac|cbn; lia].
-  - cbn in H3. split; [apply autoclear_wf; [lia|tauto]|].
+  - split; [exact Hp|cbn; lia].
+  - cbn in H3. split; [exact Hp|].
     unfold autoclear. cbn [stk]. destruct t; cbn; lia.
 Qed.
 
@@ -412,15 +440,6 @@ Proof.
   - apply (IH t (n + 1) m); [lia|exact H].
 Qed.
 
-Lemma put_jump n : 0 <= n ->
-  triple (fun s => wf s /\ stk s <> [])
-    (s <-- get ;;; put (mkst (skipn (Z.to_nat n) (rest s)) (off s + n) (Some (off s + n + 1)) (apos s + n) (stk s)))
-    (fun _ => wf) wf.
-Proof.
-  intros Hn [r o e a k] ((H1 & H2 & H3) & Hk). cbn in *. unfold wf. cbn [off stk].
-  split; [lia|]. split; [intros; contradiction|]. apply (frames_le_mono k o); [assumption|lia].
-Qed.
-
 (* variants that remember the stack is not empty (inside a Push) *)
 Definition wfp (s : st) : Prop := wf s /\ stk s <> [].
 Definition wrp (s : st) : Prop := wr s /\ stk s <> [].
@@ -473,8 +492,10 @@ Proof.
   pose proof (between_scan_nonneg (S (length (rest s0))) r (rest s0) 0 n ltac:(lia) Eb) as Hn.
   eapply t_bind.
   { instantiate (1 := fun _ => wf). intros s [Hs [Hw Hk]]. subst s0. unfold put.
-    destruct s as [rr o e a kk]. cbn [rest off endr apos stk] in *. destruct Hw as (H1 & H2 & H3). cbn in H1, H2, H3.
-    unfold wf. cbn [off stk]. split; [lia|]. split; [intros; contradiction|]. apply (frames_le_mono kk o); [assumption|lia]. }
+    destruct s as [rr o e a kk]. cbn [rest off endr apos stk] in *. destruct Hw as (H1 & H2 & H3 & H4 & H5). cbn [rest off endr apos stk] in *.
+    unfold wf, small. cbn [off stk rest]. split; [lia|]. split; [intros; contradiction|].
+    split; [apply (frames_le_mono kk o); [assumption|lia]|]. split; [|assumption].
+    pose proof (skipn_zlen_le (Z.to_nat n) rr). lia. }
   intros u3. apply safe_bind; [apply trail_spec|]. intros p.
   apply safe_bind; [apply safe_try', safe_skip; lia|]. intros _. apply safe_ret.
 Qed.
